@@ -14,6 +14,7 @@ from runner import Case
 
 THEOREMS = [
     "C19.rt_levels", "C19.rt_midpoint", "C19.rt_siblings", "C19.rt_nonneg", "C19.rt_full_false",
+    "C19.rt_shape",
 ]
 PROOF_IMPORTS = ["BigtreeProofs.Properties.C19"]
 EPS = Fraction(1, 10**9)
